@@ -44,6 +44,8 @@ type Config struct {
 	// PermutePicks: the silent-mode pickMembers function returns the members in a non-ascending order (the same at every node,
 	// determined by the topic name). The README's own sample picker is a topic-dependent permutation.
 	PermutePicks bool
+	// Logger handed to the schemes (default: discard everything)
+	Logger tss.Logger
 }
 
 type Cluster struct {
@@ -81,6 +83,10 @@ func New(cfg Config) *Cluster {
 		}
 		return m
 	}
+	var logger tss.Logger = common.Nolog{}
+	if cfg.Logger != nil {
+		logger = cfg.Logger
+	}
 	for _, u := range nodes {
 		u := u
 		kgf := func(id uint16) tss.KeyGenerator {
@@ -97,7 +103,7 @@ func New(cfg Config) *Cluster {
 		}
 		var s tss.MpcParty
 		if cfg.Silent {
-			s = threshold.SilentScheme(u, common.Nolog{}, kgf, sf, cfg.Threshold, c.Net.SendFunc(u), membership, c.pick)
+			s = threshold.SilentScheme(u, logger, kgf, sf, cfg.Threshold, c.Net.SendFunc(u), membership, c.pick)
 			if cfg.FastBoxClock > 0 {
 				if v := reflect.ValueOf(s); v.Kind() == reflect.Ptr && v.Elem().Kind() == reflect.Struct {
 					if f := v.Elem().FieldByName("Box"); f.IsValid() && f.CanInterface() {
@@ -110,7 +116,7 @@ func New(cfg Config) *Cluster {
 				}
 			}
 		} else {
-			s = threshold.LoudScheme(u, common.Nolog{}, kgf, sf, cfg.Threshold, c.Net.SendFunc(u), membership)
+			s = threshold.LoudScheme(u, logger, kgf, sf, cfg.Threshold, c.Net.SendFunc(u), membership)
 			if cfg.Barrier {
 				s.(*threshold.Scheme).SyncFactory = func(members []uint16, _ func([]byte), _ func([]byte, uint16)) tss.Synchronizer {
 					return &barrierSync{hub: c.Hub, id: u}
